@@ -904,7 +904,7 @@ def run(rep, tier, seed, only=None):
         "spec/ew.py is hand-typed from the PDG structure-function review (oracle)",
         "neutrino 'polarization' sign convention taken as opposite to charged leptons (PDG defines none)",
         "A-np: numpy object-dtype arithmetic is the real reading of float64 arithmetic",
-        "A-eko: basis_j(x_k) = delta_jk, partition of unity, continuity of the basis functions -- assumed for arbitrary grids; bounded stand-in: proved by z3 for every x on six grids by executing eko's real evaluate_x / log_evaluate_x symbolically",
+        "A-eko: basis_j(x_k) = delta_jk, partition of unity, continuity of the basis functions -- assumed for arbitrary grids; stand-ins (labelled bounded): eko's real constructors and evaluate_x executed on symbolic nodes and x (any node positions, degree 1..4, up to degree+3 nodes; exact identities) and on six concrete grids (every x, z3)",
         "gluon/singlet/valence weights specified as flavour averages (charge average), see DESIGN C02",
         "identity tolerance 1e-12 relative (concrete float sub-computations such as np.mean of charges)",
     )
